@@ -192,7 +192,7 @@ func runC13Curve(c *h.Ctx, cv curveT) {
 	one := big.NewInt(1)
 	nKeys := 2
 	if c.Thorough() {
-		nKeys = 6
+		nKeys = 3
 	}
 	digestLens := []int{0, 1, 19, 20, 27, 28, 29, 31, 32, 33, 47, 48, 49, 63, 64, 65, 66, 67, 80, 127, 128}
 	for ki := 0; ki < nKeys; ki++ {
@@ -272,12 +272,16 @@ func runC13Curve(c *h.Ctx, cv curveT) {
 				c13VerifyASN1(c, name+":asn1:structured-mutation", cv, pub, digest, v)
 			}
 			nflip := 12
+			allBits := c.Thorough() && dl%3 == 0 // every bit position for a third of the digests, 60 random ones otherwise
 			if c.Thorough() {
+				nflip = 60
+			}
+			if allBits {
 				nflip = 8 * len(good)
 			}
 			for j := 0; j < nflip; j++ {
 				bit := c.Rng.Intn(8 * len(good))
-				if c.Thorough() {
+				if allBits {
 					bit = j
 				}
 				c13VerifyASN1(c, name+":asn1:bit-flip", cv, pub, digest, flipBit(good, bit))
